@@ -5,7 +5,7 @@ import html
 import datetime
 from hypothesis import strategies as st
 
-from ..core import Part, sut
+from ..core import Part, sut, SutError
 from ..gen import styles as GS, chars as GC
 from ..oracles import sgr as SGR
 from . import c04 as C04
@@ -59,12 +59,25 @@ def op_strategy():
         st.integers(0, 3).map(lambda n: ["line", n]),
         st.sampled_from(["bell", "clear", "hide_cursor", "show_cursor"]).map(lambda k: ["ctl", k]),
     )
-    cap = st.lists(p, min_size=0, max_size=3).map(lambda ps: ["capture", ps])
+    # ["raise"] inside a capture block: a print whose renderable raises; the program handles the exception and goes on
+    cap = st.lists(st.one_of(p, p, p, st.just(["raise"])), min_size=0, max_size=4).map(lambda ps: ["capture", ps])
     exp = st.one_of(
         st.tuples(st.booleans(), st.booleans()).map(lambda t: ["export_text", t[0], t[1]]),
         st.tuples(st.booleans(), st.booleans()).map(lambda t: ["export_html", t[0], t[1]]),
     )
     return st.one_of(out_ops, out_ops, out_ops, cap, exp, exp)
+
+
+class UserError(Exception):
+    pass
+
+
+class Raises:
+    """A renderable that produces one line and then fails."""
+
+    def __rich_console__(self, console, options):
+        yield "before the failure"
+        raise UserError("renderable failed")
 
 
 def make_printable(x):
@@ -145,6 +158,17 @@ class Histories(Part):
         exports = set()
 
         def emit(c, x, via="print", tick=0, opts=None):
+            if x == ["raise"]:
+                if c is con:
+                    try:
+                        c.print(Raises())
+                    except UserError:
+                        ctx.cls("failed-print-in-capture")
+                    except Exception as e:  # noqa
+                        raise SutError(e)
+                    else:
+                        ctx.violation("capture", "C15/capture/exception-swallowed", "the exception of a failing renderable did not propagate out of print()")
+                return
             r, kw = make_printable(x)
             if via == "print":
                 kw = dict(kw)
